@@ -291,6 +291,7 @@ fn base_scenario(shape: u64) -> Scenario {
         cap_ms: 8_000,
         strays: vec![],
         stateless_reset: true,
+        rebinds: vec![],
     }
 }
 
